@@ -18,7 +18,7 @@ Lanes (crc16 families): `out_next = output_stage(builder(input_stage(out_cur), d
   "CRC value after a prefix" x "next data" -> "CRC value after prefix + data", which is what the specification defines.
 Workload (function level): all-zero, all-ones, one-hot and all-but-one bases of state and data, pairs differing in one
   bit, random pairs; USB2 byte step additionally a complete 1/16 slice of the 2^24 (state, byte) space per case in the
-  thorough tier (slice = top 4 state bits; a bin per slice, all 16 required: ~350 draws, P(miss) < 1e-7) and 256 random
+  thorough tier (slice = top 4 state bits; a bin per slice, all 16 required: 280 draws expected, P(miss) ~ 2e-7) and 256 random
   pairs of every slice per case in the quick tier (there the slice bins mean "sampled").
 Workload (module level): random sequences from reset and from restarts: restart in the middle of a packet, restart
   together with a data byte, back-to-back bytes / bytes with gaps, rx and tx sources interleaved, long all-zero and
@@ -43,7 +43,7 @@ from rv.ref import crc as R
 from rv.ref import usb2 as U
 
 PROPERTY = "C30"
-CASES = {"quick": 128, "thorough": 1000}
+CASES = {"quick": 128, "thorough": 800}
 RULE = ("case = one CRC family (crc5 20% / usb2_crc16 35% / usb3_crc16 25% / usb3_crc32 20%): function lanes (crc32: the "
         "module with its register steered to chosen values) driven with zero / ones / one-hot / all-but-one bases of state "
         "and data, one-bit-apart pairs and random pairs (crc5: all 2^11 inputs; usb2 crc16: 256 random pairs of each of the "
